@@ -128,6 +128,28 @@ CHECKS = {
         note='Sampled rooms inside the stated envelope; numpy/scipy trusted.',
         technique='ground-truth oracle on the outputs of the real estimation pipeline over generated rooms',
         engine='lighthouse-oracles', design='DESIGN.md §3 C09'),
+    'C15': dict(
+        level='exploration',
+        text=('Return values of the real conversion functions over ~2e5 (thorough 2e6) directions inside +-80/+-55 degrees '
+              '(5-degree boundary grid + random): V1->V2->V1, V1->cart->V1, V1->projection->V1 round trips, unit norm, and an '
+              'independent tilted-light-plane equation for both V2 sweeps; rigid-motion laws on random / identity / half-turn / '
+              '1e-9 rad poses (inverse, associativity, sequential application, matrix / rotation-vector / quaternion views, '
+              'orthonormality); the geometry solver\'s vectorised _calc_angle_pairs against the projection defined by Pose and '
+              'LighthouseBsVector incl. exactly-zero rotation vectors; IPPE axis permutation.'),
+        note='Tolerances: 1e-6 rad for float32-limited paths, 1e-9 for float64 laws; measured worst values are in the evidence.',
+        technique='round-trip and algebraic-law oracles with independent reference computations on return values',
+        engine='lighthouse-oracles', design='DESIGN.md §3 C15'),
+    'C16': dict(
+        level='exploration',
+        text=('Generated systems with a known misalignment (0..30 degrees incl. a dense 25-30 band, <=3 m, optional half '
+              'turns about Z/X = the mirror cases, 1..3 x-axis and 1..4 plane reference points, noise 0/1/5 mm) go through the '
+              'real aligner; monitors require one proper rigid transformation for all base stations (pairwise distances and '
+              'relative rotations), the images of the reference points on the axes, first base station above the floor, '
+              'equality with the generating inverse transform when noise-free, and untouched inputs. Both scaling modes are '
+              'run on systems shrunk by a known factor 0.2..5: uniform factor, bit-identical rotations, recovered factor.'),
+        note='Noise-free exactness tolerance 1e-4; diagonal scaling limited to 2e-4 by float32 direction vectors.',
+        technique='ground-truth oracle on aligner / scaler outputs, rigidity invariants, input-immutability monitor',
+        engine='lighthouse-oracles', design='DESIGN.md §3 C16'),
 }
 
 PENDING_REASON = ('check not built yet in this work session (design in DESIGN.md §3); nothing is claimed for it '
